@@ -283,5 +283,159 @@ func propTable() map[string]*PropSpec {
 			Outside:     []string{"locks from views above 1; committees other than 4; vote shapes with forged proofs (rejected before counting: C08)"},
 		}
 	}
+	// ---------------- C10 ----------------
+	{
+		var q, th []RunConfig
+		mk := func(me, pf, events, seq int) RunConfig {
+			return rc(fmt.Sprintf("C10_Events/me=%d/prefix=%d/seq=%0*d", me, pf, events, seq), ".", "C10_Events", map[string]int{"me": me, "prefix": pf, "events": events, "seq": seq})
+		}
+		for _, me := range []int{0, 1, 2} {
+			for _, pf := range []int{0, 1, 2, 4} {
+				for a := 0; a <= 5; a++ {
+					for b := 0; b <= 5; b++ {
+						if a == 5 {
+							continue // nothing to re-deliver yet
+						}
+						c := mk(me, pf, 2, a*10+b)
+						th = append(th, c)
+						if me <= 1 && (pf == 0 || pf == 2) {
+							q = append(q, c)
+						}
+					}
+				}
+			}
+		}
+		for _, seq := range []int{4, 40, 44, 404, 440, 414, 441, 144, 43, 434, 34, 340, 341, 403, 413, 12, 120, 124, 412, 421, 241, 142} {
+			for _, me := range []int{1, 2} {
+				th = append(th, mk(me, 2, 3, seq), mk(me, 0, 3, seq))
+			}
+		}
+		t["C10"] = &PropSpec{ID: "C10", Quick: q, Thorough: th,
+			Assumptions: []string{"ideal signature registry, proposal/commitment stubs; committee of 4 equal weights"},
+			Bounds:      []string{"one node (index 0..2) in prefix states fresh / proposal accepted / prepared / timed out with lock, then 2 (quick) or 2..3 (thorough) events, each a fully symbolic PREPREPARE / PREPARE / COMMIT / proof-less VIEW_CHANGE, an election timeout, or the re-delivery of the previous message; outbox invariants checked after every event; an adversarial message without influence ends the path"},
+			Outside:     []string{"sequences longer than 3 events; NEW_VIEW and proof-carrying votes as events (their acceptance conditions are C07/C08; their effect on the outbox is exercised in C09/C11/C01 harnesses)"},
+		}
+	}
+
+	// ---------------- C11 ----------------
+	{
+		mkV := func(me, sym int) RunConfig {
+			c := rc(fmt.Sprintf("C11_Vote/me=%d/sym=%d", me, sym), ".", "C11_Vote", map[string]int{"me": me, "sym": sym})
+			c.RequireReach = []string{"C11.VC.with_lock"}
+			return c
+		}
+		mkN := func(sym, prep int) RunConfig {
+			c := rc(fmt.Sprintf("C11_NewView/sym=%d/prepares=%d", sym, prep), ".", "C11_NewView", map[string]int{"sym": sym, "prepares": prep})
+			c.RequireReach = []string{"C11.NV.emitted"}
+			return c
+		}
+		mkP := func(me int) RunConfig {
+			c := rc(fmt.Sprintf("C11_PrepareCommit/me=%d", me), ".", "C11_PrepareCommit", map[string]int{"me": me})
+			c.RequireReach = []string{"C11.P.delivered", "C11.C.delivered"}
+			return c
+		}
+		q := []RunConfig{mkV(2, 1), mkV(3, 2), mkN(1, -1), mkN(1, 2), mkP(2), mkP(1)}
+		th := append([]RunConfig{}, q...)
+		th = append(th, mkV(3, 1), mkV(2, 2), mkN(0, -1), mkN(2, -1), mkN(1, 0), mkN(1, 3), mkN(2, 2), mkP(3))
+		t["C11"] = &PropSpec{ID: "C11", Quick: q, Thorough: th,
+			Assumptions: []string{"ideal signature registry, proposal/commitment stubs; committee of 4 equal weights; producer and consumer are two real nodes sharing registry and committee"},
+			Bounds:      []string{"producer accepts <=2 fully symbolic adversarial inputs (PREPAREs before its vote; VIEW_CHANGEs with/without proof before its NEW_VIEW) plus listed honest traffic; every VIEW_CHANGE / NEW_VIEW / PREPARE / COMMIT it then emits is delivered to a correct peer in a state satisfying the statement's precondition (leader of the addressed view; view not higher, no proposal yet)"},
+			Outside:     []string{"more than 2 adversarial inputs; consumers in views above 1; committees other than 4"},
+		}
+	}
+	// ---------------- C17 ----------------
+	{
+		mk := func(k int) RunConfig {
+			c := rc(fmt.Sprintf("C17_Filter/ops=%d", k), ".", "C17_Filter", map[string]int{"ops": k})
+			c.RequireReach = []string{"C17.advanced", "C17.delivered_from_cache"}
+			c.MaxPaths = 2000000
+			return c
+		}
+		q := []RunConfig{mk(3), mk(4)}
+		q[0].RequireReach = []string{"C17.advanced"}
+		th := []RunConfig{mk(3), mk(4), mk(5)}
+		th[0].RequireReach = []string{"C17.advanced"}
+		t["C17"] = &PropSpec{ID: "C17", Quick: q, Thorough: th,
+			Assumptions: []string{"messages are PREPAREs built with the real factory; the message number is carried in the (concrete) view field; reading of the ordering clause: 'before it' = before the node starts height H (DESIGN.md section 6/C17)"},
+			Bounds:      []string{"k operations (quick 3 and 4, thorough up to 5), each a symbolic choice of receive(message with symbolic 64-bit height, symbolic instance, symbolic sender byte) or advance(symbolic larger height); start height symbolic >= 1"},
+			Outside:     []string{"sequences longer than 5 operations"},
+		}
+	}
+
+	// ---------------- C15 ----------------
+	{
+		var q, th []RunConfig
+		for _, k := range []int{3, 4} {
+			c := rc(fmt.Sprintf("C15_Registry/ops=%d", k), "state", "C15_Registry", map[string]int{"ops": k})
+			c.RequireReach = []string{"C15.issued", "C15.some_cancelled"}
+			q = append(q, c)
+			th = append(th, c)
+		}
+		c5 := rc("C15_Registry/ops=5", "state", "C15_Registry", map[string]int{"ops": 5})
+		c5.MaxPaths = 2000000
+		th = append(th, c5)
+		for site := 0; site <= 5; site++ {
+			c := rc(fmt.Sprintf("C15_SPI/site=%d", site), ".", "C15_SPI", map[string]int{"site": site})
+			q = append(q, c)
+			th = append(th, c)
+		}
+		for ev := 0; ev <= 1; ev++ {
+			c := rc(fmt.Sprintf("C15_MainLoop/event=%d", ev), ".", "C15_MainLoop", map[string]int{"event": ev})
+			c.RequireReach = []string{"C15.main.forwarded"}
+			q = append(q, c)
+			th = append(th, c)
+		}
+		t["C15"] = &PropSpec{ID: "C15", Quick: q, Thorough: th,
+			Assumptions: []string{"context model: context.WithCancel / Err / Done modelled by the engine (parent-child cancellation)", "SPI stubs perform a nondeterministic interference action (CancelOlderThan with symbolic argument, Shutdown, or nothing) standing for what the main loop can do while the worker is blocked in the call"},
+			Bounds:      []string{"registry: k operations For/CancelOlderThan/Shutdown with symbolic 64-bit (height, view) arguments (k=3,4 quick; up to 5 thorough); 6 SPI call sites (first-leader proposal, proposal validation, elected-leader proposal, NEW_VIEW validation, committee polling, commit callback); main loop: one election trigger / one sync with symbolic position in the channel model, checked at the moment the event is forwarded to the worker"},
+			Outside:     []string{"wall-clock promptness ('as soon as'); a consumer SPI that ignores its context; real goroutine scheduling"},
+		}
+	}
+
+	// ---------------- C13 ----------------
+	{
+		var q, th []RunConfig
+		for _, k := range []int{2, 3} {
+			c := rc(fmt.Sprintf("C13_State/ops=%d", k), "state", "C13_State", map[string]int{"ops": k})
+			q = append(q, c)
+			th = append(th, c)
+		}
+		for _, me := range []int{0, 1} {
+			c := rc(fmt.Sprintf("C13_Worker/me=%d/events=2", me), ".", "C13_Worker", map[string]int{"me": me, "events": 2})
+			c.RequireReach = []string{"C13.committed"}
+			q = append(q, c)
+			c3 := rc(fmt.Sprintf("C13_Worker/me=%d/events=3", me), ".", "C13_Worker", map[string]int{"me": me, "events": 3})
+			th = append(th, c, c3)
+		}
+		t["C13"] = &PropSpec{ID: "C13", Quick: q, Thorough: th,
+			StaticChecks: []func(eng *Engine) (string, bool, string){staticSingleWriter},
+			Assumptions:  []string{"sequential reduction: State methods are mutex-atomic and (statically checked each run) height/view are written only by the State mutators reached from the worker, so every interleaving of the two goroutines is a sequence of worker events with context cancellations interleaved at SPI calls"},
+			Bounds:       []string{"State mutators: 2..3 operations with symbolic arguments from a symbolic state; worker: symbolic start height, then 2 (quick) / 3 (thorough) events out of {honest commit round with symbolic callback failure, sync to a symbolic height, election timeout, re-delivered traffic of the previous height}"},
+			Outside:      []string{"the real two-goroutine scheduler (replaced by the reduction above)"},
+		}
+	}
+
+	// ---------------- C14 ----------------
+	{
+		var q []RunConfig
+		for _, me := range []int{0, 1} {
+			c := rc(fmt.Sprintf("C14_Sync/me=%d", me), ".", "C14_Sync", map[string]int{"me": me})
+			c.RequireReach = []string{"C14.synced", "C14.stale"}
+			q = append(q, c)
+		}
+		for _, k := range []int{1, 2, 3} {
+			for pre := 0; pre <= 1; pre++ {
+				c := rc(fmt.Sprintf("C14_MainLoop/syncs=%d/prefilled=%d", k, pre), ".", "C14_MainLoop", map[string]int{"syncs": k, "prefilled": pre})
+				c.RequireReach = []string{"C14.mainloop.done"}
+				q = append(q, c)
+			}
+		}
+		t["C14"] = &PropSpec{ID: "C14", Quick: q, Thorough: q,
+			StaticChecks: []func(eng *Engine) (string, bool, string){staticSingleSender, staticSingleWriter},
+			Assumptions:  []string{"same sequential reduction as C13; the main loop is (statically checked) the only sender on the worker's update-state channel"},
+			Bounds:       []string{"worker: symbolic start height and symbolic sync height (older / equal / newer), followed by a second older sync; main loop: 1..3 UpdateState calls with symbolic heights, worker channel empty or pre-filled, in the channel model"},
+			Outside:      []string{"real-time 'indefinitely'; syncs racing a commit on the real scheduler"},
+		}
+	}
 	return t
 }
